@@ -438,10 +438,61 @@ def check_server_case(case, counters, sets):
     return viols
 
 
+def check_process_case(case, counters, sets):
+    """from_process on a real event loop (real time, wide margins): a child prints a line every 30 ms; the source is stopped
+    while the child is alive and still printing.  The read in progress may deliver one more line; the reading loop must
+    not go on after that, and stopped must stay True."""
+    import asyncio
+    import sys
+    import time
+    from streamz import Stream
+    viols = []
+    got = []
+
+    async def main():
+        child = 'import time\nfor i in range(%d):\n    print(i, flush=True)\n    time.sleep(0.03)\n' % case['lines']
+        src = Stream.from_process([sys.executable, '-u', '-c', child], asynchronous=True)
+        src.sink(lambda x: got.append((time.time(), x)))
+        src.start()
+        t0 = time.time()
+        while len(got) < case['stop_after'] and time.time() - t0 < 10:
+            await asyncio.sleep(0.01)
+        if len(got) < case['stop_after']:
+            return None
+        src.stop()
+        t_stop = time.time()
+        await asyncio.sleep(case['watch'])
+        late = [x for t, x in got if t > t_stop]
+        return late, bool(src.stopped)
+    try:
+        r = asyncio.run(asyncio.wait_for(main(), 30))
+    except Exception as ex:         # noqa: BLE001
+        return None
+    if r is None:
+        return None
+    late, stopped = r
+    counters['process_source_stops_checked'] = counters.get('process_source_stops_checked', 0) + 1
+    if len(late) > 2 or not stopped:
+        viols.append({'key': 'C18:reading-went-on-after-stop@from_process',
+                      'what': 'stop() while the child was alive and printing every 30 ms: %d further lines were delivered in the following '
+                              '%.1f s (at most the read in progress may complete), stopped=%r' % (len(late), case['watch'], stopped), 'case': case})
+    sets.setdefault('source_kinds', set()).add('from_process')
+    return viols
+
+
 def run_shard(seed, tier, shard, nshards):
     rng = random.Random('%s-%d-%d-%s' % (PID, seed, shard, tier))
     out = {'evaluations': 0, 'keys': [], 'violations': [], 'samples': [], 'counters': {},
            'sets': {}, 'inconclusive': []}
+    for k in range(4 if tier == 'thorough' else 1):
+        case = {'process': True, 'lines': 120, 'stop_after': rng.choice([1, 3, 6]), 'watch': 0.6}
+        v = check_process_case(case, out['counters'], out['sets'])
+        out['evaluations'] += 1
+        if v is None:
+            out['inconclusive'].append('from_process case %d: child produced nothing in time' % k)
+        else:
+            out['violations'].extend(v)
+            out['keys'].append(progs.prog_key(case, None))
     for k in range(n_cases(tier) // 10):
         case = gen_server_case(rng)
         out['violations'].extend(check_server_case(case, out['counters'], out['sets']))
@@ -463,6 +514,8 @@ def run_shard(seed, tier, shard, nshards):
 
 
 def replay(case):
+    if case.get('process'):
+        return check_process_case(case, {}, {}) or []
     if case.get('server'):
         return check_server_case(case, {}, {})
     _, viols = check_case(case, {}, {})
